@@ -461,7 +461,7 @@ package lisp
 //@   ensures-on-panic [loc-restored-on-panic] env.loc == old(env.loc)
 //@   ensures  [frames-below-keep-their-flags] FLAGS(env)
 //@   ensures-on-panic [frames-below-keep-their-flags-on-panic] FLAGS(env)
-//@   property C05 C18
+//@   property C05 C18 C02
 
 //@ func (*LEnv).funCall
 //@   requires rtOK(env) && fun != nil
@@ -539,7 +539,7 @@ package lisp
 //@   ensures-on-panic [frames-below-top-keep-their-flags-on-panic] FLAGSBELOW(env, old(len(env.Runtime.Stack.Frames)) - 1)
 //@   property C05 C02
 
-//@ frame writers(LEnv.evalCtx) subset { (*LEnv).call, WithContext$1, newEnvN } property C05
+//@ frame writers(LEnv.evalCtx) subset { (*LEnv).call, (*LEnv).call$1, WithContext$1, newEnvN } property C05
 
 //@ func (*LEnv).load
 //@   requires rtOK(env)
@@ -788,3 +788,168 @@ package lisp
 //@   assert-at QExpr [list-result-owns-its-storage] fresh(arg0)
 //@   modifies nothing
 //@   property C11 C09
+
+//@ func Array
+//@   uses singletons
+//@   loop 1 (rangeindex) invariant [idx] -1 <= rangeindex
+//@   loop 2 (rangeindex) invariant [idx] -1 <= rangeindex
+//@   loop 2 (rangeindex) invariant [size-of-a-vector] dims == nil && len(cells) > 0 ==> (rangeindex == -1 && totalSize == 1) || (rangeindex == 0 && totalSize == len(cells))
+//@   loop 3 (rangeindex) invariant [idx] -1 <= rangeindex
+//@   ensures  [vector-over-the-given-cells] dims == nil && len(cells) > 0 ==> result != nil && fresh(result) && result.Type == LArray && len(result.Cells) == 2 && result.Cells[1] != nil && fresh(result.Cells[1]) && arr(result.Cells[1].Cells) == arr(cells) && off(result.Cells[1].Cells) == off(cells) && len(result.Cells[1].Cells) == len(cells) && cap(result.Cells[1].Cells) == cap(cells)
+//@   ensures  [fresh-result] result != nil && fresh(result)
+//@   ensures  [array-or-error] result.Type == LArray || result.Type == LError
+//@   ensures  [array-shape] result.Type == LArray ==> len(result.Cells) == 2 && result.Cells[0] != nil && result.Cells[1] != nil && fresh(result.Cells[1]) && result.Cells[1].Type == LSExpr
+//@   ensures  [array-over-the-given-cells] result.Type == LArray && len(cells) > 0 ==> arr(result.Cells[1].Cells) == arr(cells) && off(result.Cells[1].Cells) == off(cells) && len(result.Cells[1].Cells) == len(cells) && cap(result.Cells[1].Cells) == cap(cells)
+//@   ensures  [fresh-backing-when-none-given] result.Type == LArray && len(cells) == 0 ==> fresh(arr(result.Cells[1].Cells))
+//@   modifies nothing
+//@   property C11
+
+// Non-mutating container builtins: nothing that existed before the call changes
+// (`modifies nothing` is checked against every heap variable the body can write).
+// Not under contract: the sorted-map builtins (assoc, dissoc, keys, key?, sorted-map;
+// their writes go through the host-replaceable Map interface) and the arms that
+// convert a list of integers to text through the appendBytes callback.
+
+//@ func builtinAppendBytes
+//@   requires rtOK(env) && argsOK(args, 2) && bytesOK(args.Cells[0]) && bytesOK(args.Cells[1])
+//@   requires [string-or-bytes-argument] args.Cells[1].Type == LString || args.Cells[1].Type == LBytes
+//@   modifies nothing
+//@   property C11
+
+//@ func builtinCAR
+//@   requires rtOK(env) && argsOK(args, 1)
+//@   modifies nothing
+//@   property C11
+
+//@ func builtinCDR
+//@   requires rtOK(env) && argsOK(args, 1)
+//@   ensures  [view-shares-the-tail-and-is-capacity-clamped] old(args.Cells[0].Type) == LSExpr && old(len(args.Cells[0].Cells)) >= 2 ==> result.Type == LSExpr && fresh(result) && cap(result.Cells) == len(result.Cells) && arr(result.Cells) == old(arr(args.Cells[0].Cells)) && off(result.Cells) == old(off(args.Cells[0].Cells)) + 1 && len(result.Cells) == old(len(args.Cells[0].Cells)) - 1 && result.sealed == old(args.Cells[0].sealed)
+//@   modifies nothing
+//@   property C11
+
+//@ func builtinConcat
+//@   requires rtOK(env) && argsOK(args, 1)
+//@   modifies nothing
+//@   property C11
+
+//@ func builtinFirst
+//@   requires rtOK(env) && argsOK(args, 1)
+//@   modifies nothing
+//@   property C11
+
+//@ func builtinGet
+//@   requires rtOK(env) && argsOK(args, 2)
+//@   modifies nothing
+//@   property C11
+
+//@ func builtinInsertIndex
+//@   requires rtOK(env) && argsOK(args, 4)
+//@   ensures  [list-result-owns-its-storage] result.Type == LSExpr && len(result.Cells) > 0 ==> fresh(arr(result.Cells))
+//@   ensures  [vector-result-owns-its-storage] result.Type == LArray ==> fresh(arr(result.Cells[1].Cells))
+//@   modifies nothing
+//@   property C11
+
+//@ func builtinLength
+//@   requires rtOK(env) && argsOK(args, 1)
+//@   modifies nothing
+//@   property C11
+
+//@ func builtinList
+//@   requires rtOK(env) && argsOK(v, 0)
+//@   modifies nothing
+//@   property C11
+
+//@ func builtinNth
+//@   requires rtOK(env) && argsOK(args, 2)
+//@   modifies nothing
+//@   property C11
+
+//@ func builtinRest
+//@   requires rtOK(env) && argsOK(args, 1)
+//@   ensures  [view-shares-the-tail-and-is-capacity-clamped] old(args.Cells[0].Type) == LSExpr && old(len(args.Cells[0].Cells)) >= 2 ==> result.Type == LSExpr && fresh(result) && cap(result.Cells) == len(result.Cells) && arr(result.Cells) == old(arr(args.Cells[0].Cells)) && off(result.Cells) == old(off(args.Cells[0].Cells)) + 1 && len(result.Cells) == old(len(args.Cells[0].Cells)) - 1 && result.sealed == old(args.Cells[0].sealed)
+//@   modifies nothing
+//@   property C11
+
+//@ func builtinReverse
+//@   requires rtOK(env) && argsOK(args, 2)
+//@   ensures  [list-result-owns-its-storage] result.Type == LSExpr && len(result.Cells) > 0 ==> fresh(arr(result.Cells))
+//@   ensures  [vector-result-owns-its-storage] result.Type == LArray ==> fresh(arr(result.Cells[1].Cells))
+//@   modifies nothing
+//@   property C11
+
+//@ func builtinSecond
+//@   requires rtOK(env) && argsOK(args, 1)
+//@   modifies nothing
+//@   property C11
+
+//@ func builtinSlice
+//@   requires rtOK(env) && argsOK(args, 4) && bytesOK(args.Cells[1])
+//@   requires [no-integer-list-to-text-conversion] (args.Cells[0].Str != "string" && args.Cells[0].Str != "bytes") || args.Cells[1].Type == LString || args.Cells[1].Type == LBytes
+//@   ensures  [list-view-shares-the-range-and-is-capacity-clamped] old(args.Cells[0].Str) == "list" && old(args.Cells[1].Type) == LSExpr && result.Type != LError ==> result.Type == LSExpr && fresh(result) && cap(result.Cells) == len(result.Cells) && arr(result.Cells) == old(arr(args.Cells[1].Cells)) && off(result.Cells) == old(off(args.Cells[1].Cells)) + old(args.Cells[2].Int) && len(result.Cells) == old(args.Cells[3].Int) - old(args.Cells[2].Int) && result.sealed == old(args.Cells[1].sealed)
+//@   ensures  [bytes-view-is-capacity-clamped] old(args.Cells[0].Str) == "bytes" && old(args.Cells[1].Type) == LBytes && result.Type != LError ==> result.Type == LBytes && fresh(result) && typeis(result.Native, *[]byte) && cap(*result.Native.(*[]byte)) == len(*result.Native.(*[]byte)) && arr(*result.Native.(*[]byte)) == old(arr(*args.Cells[1].Native.(*[]byte)))
+//@   ensures  [vector-from-a-sealed-list-is-a-copy] old(args.Cells[0].Str) == "vector" && old(args.Cells[1].Type) == LSExpr && old(args.Cells[1].sealed) && result.Type == LArray && old(args.Cells[3].Int) > old(args.Cells[2].Int) ==> arr(result.Cells[1].Cells) != old(arr(args.Cells[1].Cells))
+//@   modifies nothing
+//@   property C11
+
+//@ func builtinVector
+//@   requires rtOK(env) && argsOK(args, 0)
+//@   modifies nothing
+//@   property C11
+
+//@ func builtinZip
+//@   requires rtOK(env) && argsOK(args, 2)
+//@   modifies nothing
+//@   property C11
+
+// ---------------------------------------------------------------- C11: mutating container builtins change exactly their target
+
+//@ pred vecOK(v) = v.Type == LArray ==> len(v.Cells) == 2 && v.Cells[0] != nil && v.Cells[1] != nil && v.Cells[0].Type == LSExpr && forall(j, 0, len(v.Cells[0].Cells), v.Cells[0].Cells[j] != nil) && v.Cells[0] != v.Cells[1] && arr(v.Cells) != arr(v.Cells[1].Cells) && arr(v.Cells[0].Cells) != arr(v.Cells[1].Cells)
+
+// append! on a vector: the target grows in place, through every reference to
+// it; the only memory written that existed before the call is the target's own
+// length and cell header and the spare capacity behind its own cells.  (The
+// bytes arm goes through the appendBytes callback and is not under contract.)
+//@ func builtinAppendMutate
+//@   requires rtOK(env) && argsOK(args, 1) && args.Cells[0].Type != LBytes && vecOK(args.Cells[0])
+//@   requires [length-cell-matches] args.Cells[0].Type == LArray && args.Cells[0].Cells[0].Type == LSExpr && len(args.Cells[0].Cells[0].Cells) == 1 ==> args.Cells[0].Cells[0].Cells[0].Int == len(args.Cells[0].Cells[1].Cells)
+//@   ensures  [target-grows-in-place] result.Type != LError ==> result == old(args.Cells[0]) && result.Cells[1] == old(args.Cells[0].Cells[1]) && len(result.Cells[1].Cells) == old(len(args.Cells[0].Cells[1].Cells)) + old(len(args.Cells)) - 1
+//@   ensures  [old-elements-kept] result.Type != LError ==> forall(i, 0, old(len(args.Cells[0].Cells[1].Cells)), result.Cells[1].Cells[i] == old(args.Cells[0].Cells[1].Cells[i]))
+//@   ensures  [new-elements-are-the-arguments-in-order] result.Type != LError ==> forall(j, 1, old(len(args.Cells)), result.Cells[1].Cells[old(len(args.Cells[0].Cells[1].Cells)) + j - 1] == old(args.Cells[j]))
+//@   ensures  [length-cell-tracks] result.Type != LError ==> result.Cells[0].Cells[0].Int == len(result.Cells[1].Cells)
+//@   modifies args.Cells[0].Cells[1].Cells, args.Cells[0].Cells[0].Cells[0].Int, spare(args.Cells[0].Cells[1].Cells)
+//@   property C11
+
+//@ pred bytesOK(v) = v.Type == LBytes ==> typeis(v.Native, *[]byte) && v.Native.(*[]byte) != nil
+
+// append-bytes! with a string or bytes argument: the target's own byte-slice
+// cell is rewritten and only its own spare capacity is written.  (The
+// list-of-integers arm goes through the appendBytes callback and is not under
+// contract.)
+//@ func builtinAppendBytesMutate
+//@   requires rtOK(env) && argsOK(args, 2) && bytesOK(args.Cells[0]) && bytesOK(args.Cells[1])
+//@   requires [string-or-bytes-argument] args.Cells[1].Type == LString || args.Cells[1].Type == LBytes
+//@   ensures  [target-is-returned] result.Type != LError ==> result == old(args.Cells[0]) && result.Native == old(args.Cells[0].Native)
+//@   ensures  [target-grows-by-the-string] result.Type != LError && old(args.Cells[1].Type) == LString ==> len(*result.Native.(*[]byte)) == old(len(*args.Cells[0].Native.(*[]byte))) + old(strlen(args.Cells[1].Str))
+//@   ensures  [target-grows-by-the-bytes] result.Type != LError && old(args.Cells[1].Type) == LBytes ==> len(*result.Native.(*[]byte)) == old(len(*args.Cells[0].Native.(*[]byte))) + old(len(*args.Cells[1].Native.(*[]byte)))
+//@   ensures  [old-bytes-kept] result.Type != LError ==> forall(i, 0, old(len(*args.Cells[0].Native.(*[]byte))), (*result.Native.(*[]byte))[i] == old((*args.Cells[0].Native.(*[]byte))[i]))
+//@   modifies *args.Cells[0].Native.(*[]byte), spare(*args.Cells[0].Native.(*[]byte))
+//@   property C11
+
+// Constructors hand back storage nothing else can reach: a later in-place
+// operation on the result (stable-sort, append!) cannot show through an argument.
+//@ func builtinConcatSeq
+//@   uses singletons
+//@   requires rtOK(env) && argsOK(args, 1)
+//@   loop 1 (rangeindex) invariant [idx] -1 <= rangeindex
+//@   loop 2 (rangeindex) invariant [idx] -1 <= rangeindex
+//@   loop 2 (rangeindex) invariant [accumulator-is-private] fresh(arr(cells)) && arr(cells) != nil
+//@   ensures  [list-result-owns-its-storage] result.Type == LSExpr && len(result.Cells) > 0 ==> fresh(arr(result.Cells))
+//@   ensures  [vector-result-owns-its-storage] result.Type == LArray ==> fresh(arr(result.Cells[1].Cells))
+//@   modifies nothing
+//@   property C11
+
+//@ func builtinCons
+//@   requires rtOK(env) && argsOK(args, 2)
+//@   ensures  [result-owns-its-storage] result.Type == LSExpr ==> fresh(result) && fresh(arr(result.Cells)) && len(result.Cells) == 1 + old(len(args.Cells[1].Cells)) && result.Cells[0] == old(args.Cells[0])
+//@   modifies nothing
+//@   property C11
